@@ -43,6 +43,7 @@ func (c *fsClient) AfterInline(x *Exec, st *State, fr *Frame, site ssa.CallInstr
 				l = tList(true, nil)
 			}
 			g.setFlag("lastNames", l)
+			g.setFlag("readAfterCommit", tTrue)
 		}
 	case "(*Stack).UpToDate":
 		if val != nil && val.Op == "tuple" && val.Args[0] == tTrue {
@@ -339,6 +340,13 @@ func (c *fsClient) mergedFresh(x *Exec, st *State, entry string, pos token.Pos) 
 	}
 	same := func(a, b *Term) bool {
 		ma, mb := listMembers(a), listMembers(b)
+		for i := range ma {
+			ma[i] = undraw(ma[i])
+		}
+		mb = append([]*Term{}, mb...)
+		for i := range mb {
+			mb[i] = undraw(mb[i])
+		}
 		sa := map[string]bool{}
 		for _, m := range ma {
 			sa[m.key] = true
